@@ -758,6 +758,9 @@ func (p *Project) WithServicesTransform(fn func(name string, s ServiceConfig) (S
 	expect := len(p.Services)
 	resultCh := make(chan result, expect)
 	newProject := p.deepCopy()
+	// read the services before the collector exists: it assigns newProject.Services when it is done,
+	// which for a project without services is immediately
+	services := newProject.Services
 
 	eg, ctx := errgroup.WithContext(context.Background())
 	eg.Go(func() error {
@@ -779,7 +782,7 @@ func (p *Project) WithServicesTransform(fn func(name string, s ServiceConfig) (S
 		newProject.Services = s
 		return nil
 	})
-	for n, s := range newProject.Services {
+	for n, s := range services {
 		name := n
 		service := s
 		eg.Go(func() error {
